@@ -5,19 +5,22 @@ import (
 	"context"
 	"fmt"
 	"os"
-	"path/filepath"
+	"sort"
+	"strings"
+	"sync"
 	"time"
 
 	pb "github.com/AliceO2Group/Control/core/protos"
 	"github.com/AliceO2Group/Control/core/integration"
-	"github.com/spf13/viper"
+	mesos "github.com/mesos/mesos-go/api/v1/lib"
 	"verif/harness/internal/simcore"
 	"verif/harness/internal/vplugin"
 )
 
-const ctl = `name: ctl
+func class(name, mode string) string {
+	return fmt.Sprintf(`name: %s
 control:
-  mode: direct
+  mode: %s
 wants:
   cpu: 0.1
   memory: 64
@@ -25,23 +28,13 @@ command:
   env: []
   shell: true
   value: "sleep 1000"
-`
-const hk = `name: hk
-control:
-  mode: basic
-wants:
-  cpu: 0.1
-  memory: 64
-command:
-  env: []
-  shell: true
-  value: "true"
-`
+`, name, mode)
+}
 
 func wf(name, hosts string, roles string) string {
 	return fmt.Sprintf(`name: %s
 defaults:
-  deploy_timeout: 3s
+  deploy_timeout: 2s
   hosts: '%s'
 roles:
 %s`, name, hosts, roles)
@@ -61,32 +54,31 @@ func main() {
 	rec := vplugin.NewRecorder("environment_id")
 	agents := []simcore.Agent{}
 	kv := map[string]string{}
-	for i, h := range []string{"h1", "h2", "h3"} {
+	for i, h := range []string{"h1", "h2", "h3", "h4"} {
 		agents = append(agents, simcore.Agent{Hostname: h, CPUs: 16, Mem: 65536, Ports: [][2]uint64{{9000, 9500}, {30000, 30500}},
 			Attributes: map[string]string{"machine_id": h}})
-		det := []string{"TPC", "ITS", "ITS"}[i]
-		kv["o2/hardware/detectors/"+det+"/flps/"+h+"/"] = ""
+		det := []string{"TPC", "ITS", "ITS", ""}[i]
+		if det != "" {
+			kv["o2/hardware/detectors/"+det+"/flps/"+h+"/"] = ""
+		}
 	}
+	nc := "      critical: false\n"
 	wfs := map[string]string{
-		"a": wf("a", `["h1"]`, taskRole("t1", "h1", "ctl", "")+taskRole("t2", "h1", "ctl", "")+
-			taskRole("k1", "h1", "hk", "      trigger: DESTROY-5\n      timeout: 2s\n      critical: false\n")+
-			taskRole("k2", "h1", "hk", "      trigger: DESTROY+5\n      timeout: 2s\n      critical: false\n")+
-			taskRole("k3", "h1", "hk", "      trigger: after_DESTROY+5\n      timeout: 2s\n      critical: false\n")+
-			`  - name: "c1"
-    call:
-      func: verif.Probe("a.d0")
-      trigger: DESTROY
-      timeout: 2s
-      critical: false
-`),
-		"b": wf("b", `["h1","h2"]`, taskRole("t1", "h1", "ctl", "")+taskRole("t2", "h2", "ctl", "")),
-		"c": wf("c", `["h3"]`, taskRole("t1", "h3", "ctl", "")),
+		"undep":   wf("undep", `["h1"]`, taskRole("t1", "h1", "ctl", "")+taskRole("t2", "nohost", "ctl", "")),
+		"lfail":   wf("lfail", `["h1"]`, taskRole("t1", "h1", "ctl", "")+taskRole("t2", "h1", "ctlfail", "")),
+		"cfgerr":  wf("cfgerr", `["h1"]`, taskRole("t1", "h1", "ctl", "")+taskRole("t2", "h1", "ctlcfg", "")),
+		"cfgerrn": wf("cfgerrn", `["h1"]`, taskRole("t1", "h1", "ctl", "")+taskRole("t2", "h1", "ctlcfg", nc)),
+		"tplerr":  wf("tplerr", `["h1"]`, taskRole("t1", "{{ nosuch.x( }}", "ctl", "")),
+		"nodet":   wf("nodet", `["h4"]`, taskRole("t1", "h4", "ctl", "")),
+		"ok1":     wf("ok1", `["h1"]`, taskRole("t1", "h1", "ctl", "")+taskRole("t2", "h1", "ctl", "")),
+		"ok2":     wf("ok2", `["h2"]`, taskRole("t1", "h2", "ctl", "")),
+		"ok3":     wf("ok3", `["h3"]`, taskRole("t1", "h3", "ctl", "")),
 	}
 	s, err := simcore.New(simcore.Options{
 		Plugins:     map[string]integration.NewFunc{"verif": vplugin.New(rec)},
 		WorkDir:     "/verif/build/sim/h04probe",
 		Workflows:   wfs,
-		TaskClasses: map[string]string{"ctl": ctl, "hk": hk},
+		TaskClasses: map[string]string{"ctl": class("ctl", "direct"), "ctlfail": class("ctlfail", "direct"), "ctlcfg": class("ctlcfg", "direct"), "hk": class("hk", "basic")},
 		Agents:      agents, KV: kv,
 		Quiet: os.Getenv("SIM_VERBOSE") == "",
 	})
@@ -94,9 +86,22 @@ func main() {
 		fmt.Println("ERR", err)
 		os.Exit(1)
 	}
-	_ = filepath.Join
+	s.Beh.Launch = func(ti mesos.TaskInfo) string {
+		if strings.Contains(ti.Name, "ctlfail") {
+			return "failed"
+		}
+		return "running"
+	}
+	s.Beh.Command = func(taskId, className, event string) simcore.CmdOutcome {
+		if className == "ctlcfg" && event == "CONFIGURE" {
+			return simcore.CmdErrSource
+		}
+		return simcore.CmdAck
+	}
 	ctx := context.Background()
+	seenKill := 0
 	dump := func(label string) {
+		time.Sleep(30 * time.Millisecond)
 		fmt.Println("----", label)
 		ge, _ := s.Rpc.GetEnvironments(ctx, &pb.GetEnvironmentsRequest{ShowAll: true})
 		for _, e := range ge.Environments {
@@ -105,40 +110,84 @@ func main() {
 		ad, _ := s.Rpc.GetActiveDetectors(ctx, &pb.Empty{})
 		fmt.Println(" active", ad.Detectors)
 		for _, t := range s.Taskman.VerifRoster() {
-			fmt.Printf(" task %s %s env=%s locked=%v st=%s/%s %s\n", t.TaskId[:6], t.ClassName[len(t.ClassName)-8:], t.EnvId, t.Locked, t.State, t.Status, t.RolePath)
+			fmt.Printf(" task %s %s env=%s locked=%v st=%s/%s %s\n", t.TaskId, t.ClassName[strings.LastIndex(t.ClassName, "/")+1:], t.EnvId, t.Locked, t.State, t.Status, t.RolePath)
 		}
-		n := 0
-		for _, c := range s.CallsSnapshot() {
+		cs := s.CallsSnapshot()
+		for ; seenKill < len(cs); seenKill++ {
+			c := cs[seenKill]
 			if c.Type == "KILL" {
-				fmt.Println(" KILL", c.Kill[:6])
-				n++
+				fmt.Println(" KILL", c.Kill)
+			}
+			if c.Type == "ACCEPT" {
+				for _, ti := range c.Tasks {
+					fmt.Println(" LAUNCH", ti.TaskID.Value, ti.Name[strings.LastIndex(ti.Name, "/")+1:])
+				}
+			}
+		}
+		lt := s.LiveTasks()
+		ids := []string{}
+		for id, v := range lt {
+			if !v.Terminal {
+				ids = append(ids, id+":"+v.Class)
+			}
+		}
+		sort.Strings(ids)
+		fmt.Println(" live at master:", ids)
+	}
+	create := func(w string) string {
+		t0 := time.Now()
+		r, err := s.Rpc.NewEnvironment(ctx, &pb.NewEnvironmentRequest{WorkflowTemplate: w, Public: true})
+		fmt.Println("create", w, ":", err, time.Since(t0))
+		dump("after create " + w)
+		if err == nil {
+			return r.Environment.Id
+		}
+		return ""
+	}
+	which := os.Args[1:]
+	has := func(x string) bool {
+		for _, w := range which {
+			if w == x {
+				return true
+			}
+		}
+		return len(which) == 0
+	}
+	for _, w := range []string{"undep", "lfail", "cfgerr", "cfgerrn", "tplerr", "nodet", "missing"} {
+		if has(w) {
+			id := create(w)
+			if id != "" {
+				_, err = s.Rpc.DestroyEnvironment(ctx, &pb.DestroyEnvironmentRequest{Id: id})
+				fmt.Println("destroy:", err)
+				dump("after destroy")
 			}
 		}
 	}
-	t0 := time.Now()
-	ra, err := s.Rpc.NewEnvironment(ctx, &pb.NewEnvironmentRequest{WorkflowTemplate: "a", Public: true})
-	fmt.Println("create a:", err, time.Since(t0))
-	dump("after a")
-	_, err = s.Rpc.NewEnvironment(ctx, &pb.NewEnvironmentRequest{WorkflowTemplate: "b", Public: true})
-	fmt.Println("create b:", err)
-	rc, err := s.Rpc.NewEnvironment(ctx, &pb.NewEnvironmentRequest{WorkflowTemplate: "c", Public: true})
-	fmt.Println("create c:", err)
-	dump("after b,c")
-	t0 = time.Now()
-	_, err = s.Rpc.DestroyEnvironment(ctx, &pb.DestroyEnvironmentRequest{Id: ra.Environment.Id})
-	fmt.Println("destroy a:", err, time.Since(t0))
-	dump("after destroy a")
-	fmt.Printf("%+v\n", rec.Events())
-	_, err = s.Rpc.DestroyEnvironment(ctx, &pb.DestroyEnvironmentRequest{Id: rc.Environment.Id, KeepTasks: true})
-	fmt.Println("destroy c keep:", err)
-	dump("after destroy c")
-	if os.Getenv("REUSE") != "" {
-		viper.Set("reuseUnlockedTasks", true)
-		_, err = s.Rpc.NewEnvironment(ctx, &pb.NewEnvironmentRequest{WorkflowTemplate: "c", Public: true})
-		fmt.Println("create c again with reuse:", err)
-		dump("after c again")
+	if has("running") {
+		for _, fl := range [][3]bool{{false, false, false}, {false, true, false}, {true, false, true}} {
+			id := create("ok1")
+			_, err = s.Rpc.ControlEnvironment(ctx, &pb.ControlEnvironmentRequest{Id: id, Type: pb.ControlEnvironmentRequest_START_ACTIVITY})
+			fmt.Println("start:", err)
+			_, err = s.Rpc.DestroyEnvironment(ctx, &pb.DestroyEnvironmentRequest{Id: id, Force: fl[0], AllowInRunningState: fl[1], KeepTasks: fl[2]})
+			fmt.Println("destroy force/allow/keep", fl, ":", err)
+			dump("after destroy")
+		}
+		_, err = s.Rpc.CleanupTasks(ctx, &pb.CleanupTasksRequest{})
+		fmt.Println("cleanup:", err)
+		dump("after cleanup")
 	}
-	_, err = s.Rpc.CleanupTasks(ctx, &pb.CleanupTasksRequest{})
-	fmt.Println("cleanup:", err)
-	dump("after cleanup")
+	if has("race") {
+		var wg sync.WaitGroup
+		for i := 0; i < 2; i++ {
+			wg.Add(1)
+			go func(i int) {
+				defer wg.Done()
+				w := []string{"ok2", "ok3"}[i]
+				_, err := s.Rpc.NewEnvironment(ctx, &pb.NewEnvironmentRequest{WorkflowTemplate: w, Public: true})
+				fmt.Println("create", w, ":", err)
+			}(i)
+		}
+		wg.Wait()
+		dump("after race")
+	}
 }
